@@ -572,7 +572,9 @@ if __name__ == "__main__":
                        "SleapVerif.Lemmas.TrackFeatures", "SleapVerif.Lemmas.TrackerHungarian"],
         trusted=[
             "Lean 4.33 kernel + Mathlib (ordered fields, WithTop); axioms ⊆ {propext, Classical.choice, Quot.sound}",
-            "model SleapVerif.Tracker tied to /repo by the same per-frame correspondence as C09",
+            "model SleapVerif.Tracker tied to /repo by the same per-frame correspondence as C09; the model takes its "
+            "decisions on the recorded reduced score matrix (its own exact reduction is compared alongside)",
+            "ArgsortSorted is validated on the harness's own np.argsort of the recorded matcher input",
             "numpy argsort ascending (ArgsortSorted; validated per recorded call)",
             "scipy linear_sum_assignment contract: one-to-one, in bounds, full size, minimum total cost (ExtOk + "
             "LsaOptimal; validated by brute force on every recorded call ≤ 6×6); optimum = identity edges under "
